@@ -25,37 +25,38 @@ PeerGone == /\ ~gone /\ gone' = TRUE
 \* whether the transport is dead for a thread at this point
 DeadRead == (gone /\ chan = <<>>) \/ closed
 \* poll()/recv() meet end-of-stream: self.close(); then the finally block (release, notify) runs with the exception pending
-SPollEof(t) == /\ pc[t] \in {"s_poll", "s_hdr", "s_body"} /\ DeadRead
+SPollEof(t) == /\ pc[t] \in {"s_recheck", "s_poll", "s_hdr", "s_body"} /\ DeadRead /\ (pc[t] = "s_recheck" => ~ready[cur[t]])
                /\ closed' = TRUE
                /\ raising' = raising \cup {t}
                /\ pc' = [pc EXCEPT ![t] = "s_release"]
                /\ UNCHANGED <<nxt, cur, wr, sendq, sendlock, sent, replied, chan, recvlock, condlock, waiters, notified, data, cb,
-                              ready, value, dispatched, receivedBy, stalls, expired, woke, gone>>
+                              ready, value, dispatched, receivedBy, stalls, expired, woke, transit, gone>>
 \* (variant without the notification: the thread leaves right after releasing the lock)
 SReleaseNoNotify(t) == /\ ~NotifyOnEof /\ pc[t] = "s_release" /\ t \in raising
                        /\ recvlock' = None
                        /\ pc' = [pc EXCEPT ![t] = "failed"]
                        /\ raising' = raising \ {t}
                        /\ UNCHANGED <<nxt, cur, wr, sendq, sendlock, sent, replied, chan, condlock, waiters, notified, data, cb,
-                                      ready, value, dispatched, receivedBy, stalls, expired, woke, gone, closed>>
+                                      ready, value, dispatched, receivedBy, stalls, expired, woke, transit, gone, closed>>
 \* the EOFError leaves serve() after the notification
 SRaise(t) == /\ pc[t] = "s_ncond_out" /\ t \in raising
              /\ condlock' = None
              /\ pc' = [pc EXCEPT ![t] = "failed"]
              /\ raising' = raising \ {t}
              /\ UNCHANGED <<nxt, cur, wr, sendq, sendlock, sent, replied, chan, recvlock, waiters, notified, data, cb,
-                            ready, value, dispatched, receivedBy, stalls, expired, woke, gone, closed>>
+                            ready, value, dispatched, receivedBy, stalls, expired, woke, transit, gone, closed>>
 \* writing a request to the dead transport: EPIPE, the send lock is released, the thread gets EOFError
 CWriteEof(t) == /\ pc[t] = "c_write" /\ (gone \/ closed)
                 /\ sendlock' = None
                 /\ wr' = [wr EXCEPT ![t] = None]
                 /\ pc' = [pc EXCEPT ![t] = "failed"]
                 /\ UNCHANGED <<nxt, cur, sendq, sent, replied, chan, recvlock, condlock, waiters, notified, data, cb,
-                               ready, value, dispatched, receivedBy, stalls, expired, woke, gone, closed, raising>>
+                               ready, value, dispatched, receivedBy, stalls, expired, woke, transit, gone, closed, raising>>
 
 \* RpycServe's own steps, where end-of-stream does not interfere
 Normal(t) == /\ pc[t] # "failed"
              /\ ~(pc[t] \in {"s_poll", "s_hdr", "s_body"} /\ DeadRead)
+             /\ ~(pc[t] = "s_recheck" /\ DeadRead /\ ~ready[cur[t]])
              /\ ~(pc[t] = "c_write" /\ (gone \/ closed))
              /\ ~(pc[t] = "s_ncond_out" /\ t \in raising)
              /\ ~(pc[t] = "s_release" /\ t \in raising /\ ~NotifyOnEof)
